@@ -588,10 +588,10 @@ pub fn explore(f: &dyn Fn() -> Verdict, seed: u64, lim: &Limits) -> Report {
             }));
         }
         // a discarded run's path is still explored (its alternatives may satisfy the assumption)
-        for i in bound..out.path.len() {
-            if out.path[i].kind != Kind::Branch && out.path[i].kind != Kind::RoArg {
-                continue;
-            }
+        // the code's own branches first, then the oracle-argument coincidences (the same set of alternatives;
+        // under a wall budget the verifier's checks are the ones that should be decided)
+        let order: Vec<usize> = (bound..out.path.len()).filter(|i| out.path[*i].kind == Kind::Branch).chain((bound..out.path.len()).filter(|i| out.path[*i].kind == Kind::RoArg)).collect();
+        for i in order {
             if t_start.elapsed().as_secs_f64() > lim.wall_s {
                 rep.complete = false;
                 rep.stopped = "wall budget".into();
